@@ -4,7 +4,9 @@ import MgpuModel.C09_Res
 Hand transcription (tie H) of
 * `dispatching.roundRobinAlgorithm` / `greedyAlgorithm` (`StartNewKernel`, `HasNext`, `Next`,
   `FreeResources`) over the shared `CUResourcePoolImpl`;
-* `dispatching.DispatcherImpl` (`StartDispatching`, `Tick`, `dispatchNextWG`, `kernelCompleted`,
+* `dispatching.DispatcherImpl` (`StartDispatching` incl. `mustBeAbleToPlaceWorkGroups` /
+  `CUResourcePoolImpl.CheckWGFitsInACU` of the repair 91eb1bb3: a launch whose first work-group fits no
+  CU even when the CU is empty panics — `fault:oversize`; `Tick`, `dispatchNextWG`, `kernelCompleted`,
   `completeKernel`, `processMessagesFromCU` — as repaired: a completion message that also carries
   work-groups of other dispatchers is consumed partially and the rest stays at the head of the
   port for its owners; the pinned code panicked here);
@@ -271,8 +273,29 @@ def startDispatching (cfg : Cfg) (d : Disp) (k : Kern) : Disp :=
 /-- `findAvailableDispatcher` -/
 def findAvailable (ds : List Disp) : Option Nat := ds.findIdx? (·.kern.isNone)
 
-/-- `cpMiddleware.Handle` for a launch request at the head of `ToDriver` -/
+/-- `mustBeAbleToPlaceWorkGroups` / `CUResourcePoolImpl.CheckWGFitsInACU` (repair 91eb1bb3): the first
+    work-group of the grid (`min(wx, gx)` work-items — never smaller than the others; an empty grid has
+    no first work-group and is not checked) must fit at least one registered CU when that CU runs
+    nothing else. With no CU registered nothing fits. -/
+def launchFits (pool : List CU) (k : Kern) : Bool :=
+  k.gx == 0 || pool.any (fun cu => fitsEmpty cu (k.dem 0))
+
+/-- `cpMiddleware.Handle` for a launch request at the head of `ToDriver`. `StartDispatching` panics
+    (`log.Panicf("%s cannot dispatch kernel %s: …")`, outcome `fault:oversize`) when the first work-group
+    fits no CU — before `StartNewKernel`, before the request is retrieved from the port. (A faulted
+    state is terminal; applying the function again to it changes nothing: `handleLaunch_fault_idem`.) -/
 def handleLaunch (cp : CP) : CP × Bool :=
+  match cp.drvIn with
+  | [] => (cp, false)
+  | k :: rest =>
+    match findAvailable cp.disps with
+    | none => (cp, false)
+    | some i =>
+      if !launchFits cp.pool k then ({ cp with fault := some "oversize" }, false) else
+      (({ cp with drvIn := rest }).setDisp i (startDispatching cp.cfg (cp.disp i) k), true)
+
+/-- the pinned code before the repair: no fit check, an oversize work-group is retried for ever -/
+def handleLaunchOld (cp : CP) : CP × Bool :=
   match cp.drvIn with
   | [] => (cp, false)
   | k :: rest =>
@@ -296,6 +319,14 @@ def cpTick (cp : CP) : CP × Bool :=
   let r3 := handleLaunch r2.1
   (r3.1, r1.2 || r2.2 || r3.2)
 
+/-- `CommandProcessor.Tick` before the repair -/
+def cpTickOld (cp : CP) : CP × Bool :=
+  let r1 := tickDispatchers (List.range cp.disps.length) cp
+  if r1.1.fault.isSome then r1 else
+  let r2 := handleLaunchOld r1.1
+  let r3 := handleLaunchOld r2.1
+  (r3.1, r1.2 || r2.2 || r3.2)
+
 /-! ## environment operations -/
 
 inductive Op where
@@ -314,6 +345,13 @@ def step (cp : CP) : Op → CP
   | .drvRoom n => { cp with drvRoom := n }
 
 def run (cp : CP) (ops : List Op) : CP := ops.foldl step cp
+
+/-- one op / a run of the pinned code before the repair -/
+def stepOld (cp : CP) : Op → CP
+  | .tick => (cpTickOld cp).1
+  | o => step cp o
+
+def runOld (cp : CP) (ops : List Op) : CP := ops.foldl stepOld cp
 
 def mkCP (cfg : Cfg) (nd : Nat) (pool : List CU) : CP :=
   { cfg := cfg, disps := List.replicate nd default, pool := pool, drvIn := [], cuIn := [],
